@@ -111,6 +111,16 @@ func (w Resolver) Resolve(id did.DID, _ *resolver.ResolveMetadata) (*did.Documen
 		return nil, nil, fmt.Errorf("did:web JSON unmarshal error: %w", err)
 	}
 
+	// go-did leaves relationship entries that are not a proper reference (e.g. "" or "#") without a verification method,
+	// which nothing after this point expects
+	for _, relationships := range []did.VerificationRelationships{document.Authentication, document.AssertionMethod, document.KeyAgreement, document.CapabilityInvocation, document.CapabilityDelegation} {
+		for _, relationship := range relationships {
+			if relationship.VerificationMethod == nil {
+				return nil, nil, errors.New("did:web document contains an empty verification relationship")
+			}
+		}
+	}
+
 	if !document.ID.Equals(id) {
 		return nil, nil, fmt.Errorf("did:web document ID mismatch: %s != %s", document.ID, id)
 	}
